@@ -3,15 +3,16 @@ CONSTANTS
   Pods = {1, 2}
   Rpcs = {1, 2}
   Enis = {1, 2}
-  Cids = {1, 2}
+  Cids = {1}
   Enforce = {"C04", "C05", "C09"}
   MaxLen = 0
   GenOn = FALSE
   Fam = "c05"
   MaxKill = 1
-  MaxDetach = 0
+  MaxDetach = 1
   MaxEnv = 0
   NPS = 7
+  MaxDbf = 1
   MaxFail = 0
 INVARIANTS AckedExclusive AckedOnDisk OneWriter GcAlone
 VIEW MCView
